@@ -7,6 +7,7 @@ CONSTANTS
   MaxBlocks = 5
   Scenario = 1
   BootstrapToo = TRUE
+  Discard = TRUE
   Weak_ApplyBeforeVerify = FALSE
   Weak_IgnoreMissingRemoval = FALSE
   Weak_NoResort = FALSE
@@ -22,8 +23,9 @@ CONSTANTS
   Weak_PruneDropsLastChanged = FALSE
   Weak_PruneDropsCheckpoint = TRUE
   Weak_NoCheckpointRecord = FALSE
+  Weak_RecoveryCopyDropsValUpdates = FALSE
 INIT Init
 NEXT Next
-INVARIANTS LookupExact PruneKeeps TruthWellFormed ProposerIsMember PruneNeverFails
+INVARIANTS LookupExact RecoveryExact PruneKeeps TruthWellFormed ProposerIsMember PruneNeverFails
 VIEW View
 CHECK_DEADLOCK FALSE
